@@ -157,13 +157,73 @@ func c18Run(line string) string {
 		}
 		return out
 	}
+	// the caller-owned slice `defaults` (defs=<ids>+<spare capacity>): "D" passes it itself (`defaults...`), so the library sees
+	// the caller's backing array
+	dids, spareStr, _ := strings.Cut(cfg["defs"], "+")
+	spare, _ := strconv.Atoi(spareStr)
+	dptrs := ptrs(dids)
+	defaults := make([]*network.Interceptor, len(dptrs), len(dptrs)+spare)
+	copy(defaults, dptrs)
+	type instT struct {
+		sh  *network.SimpleHTTPDef
+		api *network.SimpleAPIDef
+	}
+	var insts []*instT
+	newInst := func(c, is string) {
+		if is == "D" {
+			insts = append(insts, &instT{sh: network.NewSimpleHTTPWithClientAndInterceptors(client(c), defaults...)})
+		} else {
+			insts = append(insts, &instT{sh: network.NewSimpleHTTPWithClientAndInterceptors(client(c), ptrs(is)...)})
+		}
+	}
+	apiFor := func(in *instT) *network.SimpleAPIDef {
+		api := in.api
+		if api == nil {
+			api = network.NewSimpleAPIWithSimpleHTTP("http://stub.test", in.sh)
+		}
+		api.ResponseDeserializer = func(b []byte, t interface{}) (interface{}, error) { return t, nil }
+		return api
+	}
 	nc, nis, _ := strings.Cut(cfg["new"], ":")
-	sh := network.NewSimpleHTTPWithClientAndInterceptors(client(nc), ptrs(nis)...)
+	newInst(nc, nis)
 	const url = "http://stub.test/x"
 
 	runOp := func(op string) (out string) {
+		defer func() {
+			if r := recover(); r != nil && out == "" {
+				out = "panic"
+			}
+		}()
 		f := strings.Fields(op)
 		switch {
+		case len(f) == 3 && f[0] == "inst":
+			newInst(f[1], f[2])
+			return "nil"
+		case len(f) == 1 && f[0] == "instd":
+			insts = append(insts, &instT{sh: network.NewSimpleHTTP()}) // its fresh client's nil transport becomes the stubbed http.DefaultTransport
+			return "nil"
+		case len(f) == 1 && f[0] == "insta":
+			api := network.NewSimpleAPI("http://stub.test")
+			insts = append(insts, &instT{sh: api.GetSimpleHTTP(), api: api})
+			return "nil"
+		}
+		j := 0
+		if len(f) > 0 && strings.HasPrefix(f[0], "@") {
+			j, _ = strconv.Atoi(f[0][1:])
+			f = f[1:]
+		}
+		if j < 0 || j >= len(insts) {
+			return "noinst"
+		}
+		in := insts[j]
+		sh := in.sh
+		switch {
+		case len(f) == 1 && f[0] == "addd":
+			sh.AddInterceptor(defaults...)
+			return "nil"
+		case len(f) == 1 && f[0] == "remd":
+			sh.RemoveInterceptor(defaults...)
+			return "nil"
 		case len(f) == 2 && f[0] == "add":
 			sh.AddInterceptor(ptrs(f[1])...)
 			return "nil"
@@ -206,20 +266,17 @@ func c18Run(line string) string {
 				take(sh.DoNewRequest(ctx, http.Header{"X-Other": {"1"}}, "PURGE", url))
 				cancel()
 			case "API":
-				api := network.NewSimpleAPIWithSimpleHTTP("http://stub.test", sh)
-				api.ResponseDeserializer = func(b []byte, t interface{}) (interface{}, error) { return t, nil }
+				api := apiFor(in)
 				var t c17Target
 				r := network.APIMakeGet[c17Target](api, "x")(nil, &t).Eval()
 				resp, err = r.Response, r.Err
 			case "APIDEL":
-				api := network.NewSimpleAPIWithSimpleHTTP("http://stub.test", sh)
-				api.ResponseDeserializer = func(b []byte, t interface{}) (interface{}, error) { return t, nil }
+				api := apiFor(in)
 				var t c17Target
 				r := network.APIMakeDelete[c17Target](api, "x/{id}")(network.PathParam{"id": 1}, &t).Eval()
 				resp, err = r.Response, r.Err
 			case "APIPOST":
-				api := network.NewSimpleAPIWithSimpleHTTP("http://stub.test", sh)
-				api.ResponseDeserializer = func(b []byte, t interface{}) (interface{}, error) { return t, nil }
+				api := apiFor(in)
 				var t c17Target
 				r := network.APIMakePostJSONBody[*c17Body, c17Target](api, "x")(nil, &c17Body{A: "a"}, &t).Eval()
 				resp, err = r.Response, r.Err
@@ -323,6 +380,74 @@ func c18Gen(tier string, rng *rand.Rand, emit func(string)) map[string]interface
 			}
 		}
 	}
+	// 2b. the caller's slice: instance 0 is built from `defaults...` (1 or 2 interceptors, 0 / 2 / 5 spare capacity); every history of
+	// length <= 3 over 10 ops, then: request, re-register `defaults`, request, build a SECOND instance from `defaults`, request through
+	// it, re-register there, request again.  No operation may change what the caller's slice holds.
+	dAlphabet := []string{"clear", "add 3", "add 0,3", "add 3,3,3", "rem 1", "rem 2", "addd", "remd", "req GET", "set c0"}
+	dSuffix := " ; req GET ; addd ; req POST ; inst c1 D ; @1 req GET ; @1 addd ; @1 req API ; req HEAD"
+	nDefaults := 0
+	dMax := 3
+	if tier != "thorough" {
+		dMax = 2
+	}
+	var drec func(prefix []string)
+	drec = func(prefix []string) {
+		if len(prefix) > 0 {
+			for _, defs := range []string{"1,2+0", "1,2+2", "1+5", "1,2,1+1"} {
+				emit("clients=s0,s1 fail=- kind=plain tfail=- st=200 defs=" + defs + " new=c0:D: " + strings.Join(prefix, " ; ") + dSuffix)
+				nDefaults++
+			}
+		}
+		if len(prefix) == dMax {
+			return
+		}
+		for _, a := range dAlphabet {
+			drec(append(append([]string{}, prefix...), a))
+		}
+	}
+	drec(nil)
+	// directed three-step histories that matter most (Clear then Add reuses storage; Remove then Add; Add beyond the spare capacity)
+	for _, h := range []string{"clear ; add 3", "clear ; add 3,4 ; add 5", "rem 1 ; add 3", "rem 2 ; add 3 ; add 4", "add 3 ; clear ; add 4,5,6",
+		"clear ; addd ; add 7", "remd ; add 3,4", "add 3 ; add 4 ; add 5 ; clear ; add 6"} {
+		for _, defs := range []string{"1,2+0", "1,2+2", "1,2,4+3"} {
+			emit("clients=s0,s1,s2 fail=- kind=plain tfail=- st=200 defs=" + defs + " new=c0:D: " + h + dSuffix + " ; inst c2 D ; @2 req GET")
+			nDefaults++
+		}
+	}
+	// 2c. several live instances, created with NewSimpleHTTP() / NewSimpleAPI(url) (each has its own fresh http.Client) or with the
+	// WithClient constructor on distinct clients, each holding its own interceptors: a request through one of them runs only its own.
+	nMulti := 0
+	ctorsM := []string{"instd", "insta", "inst c1 5"}
+	for _, a := range ctorsM {
+		for _, b := range ctorsM {
+			for _, c := range []string{"", "instd", "insta"} {
+				for vi, v := range c18Verbs {
+					if (nMulti+vi)%3 != 0 && tier != "thorough" {
+						continue
+					}
+					b2 := b
+					if a == "inst c1 5" && b == "inst c1 5" {
+						b2 = "inst c2 6"
+					} else if b == "inst c1 5" {
+						b2 = "inst c2 5"
+					}
+					ops := []string{a, b2}
+					if c != "" {
+						ops = append(ops, c)
+					}
+					ops = append(ops, "@1 add 1", "@2 add 2,3", "add 0", "req "+v, "@1 req "+v, "@2 req "+v)
+					if c != "" {
+						ops = append(ops, "@3 add 4", "@3 req "+v, "@1 req "+v)
+					}
+					ops = append(ops, "@1 clear", "@2 rem 2", "@1 req "+v, "@2 req "+v, "req "+v)
+					for _, fail := range []string{"-", "2", "1,0"} {
+						emit("clients=s0,s1,s2 fail=" + fail + " kind=" + c17ErrKinds[nMulti%len(c17ErrKinds)] + " tfail=- st=200 defs=-+0 new=c0:-: " + strings.Join(ops, " ; "))
+						nMulti++
+					}
+				}
+			}
+		}
+	}
 	// 3. random histories: <= 6 bookkeeping ops, 0..6 interceptors (duplicates), 0..3 SetHTTPClient, requests interleaved
 	stats := map[string]int{}
 	for i := 0; i < nRandom; i++ {
@@ -350,32 +475,81 @@ func c18Gen(tier string, rng *rand.Rand, emit func(string)) map[string]interface
 		if rng.Intn(3) == 0 {
 			tf = []string{"d", "s0", "s1", "d,s0,s1,s2,s3", "s0,s1"}[rng.Intn(5)]
 		}
-		head := "clients=" + strings.Join(cl, ",") + " fail=" + fail + " kind=" + c17ErrKinds[rng.Intn(len(c17ErrKinds))] + " tfail=" + tf +
-			" st=" + c18Statuses[rng.Intn(len(c18Statuses))] + " new=c" + strconv.Itoa(rng.Intn(nClients)) + ":" + ids(6) + ": "
+		multi := rng.Intn(3) == 0
+		defs := ids(3) + "+" + strconv.Itoa(rng.Intn(4))
+		newSpec := "c" + strconv.Itoa(rng.Intn(nClients)) + ":" + ids(6)
+		if multi {
+			newSpec = "c0:" + ids(4)
+		}
+		if rng.Intn(4) == 0 {
+			newSpec = newSpec[:strings.Index(newSpec, ":")+1] + "D"
+		}
+		nInst := 1
+		instClient := []int{0} // the pool client an instance owns (-1: its own fresh client)
+		head := "clients=" + strings.Join(cl, ",") + " fail=" + fail + " defs=" + defs + " kind=" + c17ErrKinds[rng.Intn(len(c17ErrKinds))] + " tfail=" + tf +
+			" st=" + c18Statuses[rng.Intn(len(c18Statuses))] + " new=" + newSpec + ": "
 		var ops []string
 		book, sets := 0, 0
 		for n := 1 + rng.Intn(12); n > 0; n-- {
 			r := rng.Intn(100)
+			at := ""
+			j := 0
+			if multi {
+				if nInst < 3 && rng.Intn(4) == 0 {
+					switch k := rng.Intn(3); {
+					case k == 0 && nInst < nClients:
+						is := ids(3)
+						if rng.Intn(3) == 0 {
+							is = "D"
+						}
+						ops = append(ops, "inst c"+strconv.Itoa(nInst)+" "+is)
+						instClient = append(instClient, nInst)
+					case k == 1:
+						ops = append(ops, "instd")
+						instClient = append(instClient, -1)
+					default:
+						ops = append(ops, "insta")
+						instClient = append(instClient, -1)
+					}
+					nInst = len(instClient)
+					stats["inst"]++
+					continue
+				}
+				j = rng.Intn(nInst)
+				if j > 0 {
+					at = "@" + strconv.Itoa(j) + " "
+				}
+			}
 			switch {
+			case r < 8 && book < 6:
+				ops = append(ops, at+[]string{"addd", "remd"}[rng.Intn(2)])
+				book++
+				stats["addd/remd"]++
+			case multi && r >= 47 && r < 60:
+				if instClient[j] >= 0 && sets < 3 {
+					ops = append(ops, at+"set c"+strconv.Itoa(instClient[j]))
+					sets++
+					stats["set"]++
+				}
 			case r < 25 && book < 6:
-				ops = append(ops, "add "+ids(3))
+				ops = append(ops, at+"add "+ids(3))
 				book++
 				stats["add"]++
 			case r < 42 && book < 6:
-				ops = append(ops, "rem "+ids(2))
+				ops = append(ops, at+"rem "+ids(2))
 				book++
 				stats["rem"]++
 			case r < 47 && book < 6:
-				ops = append(ops, "clear")
+				ops = append(ops, at+"clear")
 				book++
 				stats["clear"]++
-			case r < 60 && sets < 3:
+			case r < 60 && sets < 3 && !multi:
 				ops = append(ops, "set c"+strconv.Itoa(rng.Intn(nClients)))
 				sets++
 				stats["set"]++
 			default:
 				v := c18Verbs[rng.Intn(len(c18Verbs))]
-				ops = append(ops, "req "+v)
+				ops = append(ops, at+"req "+v)
 				stats["req."+v]++
 			}
 		}
@@ -384,7 +558,7 @@ func c18Gen(tier string, rng *rand.Rand, emit func(string)) map[string]interface
 	}
 	return map[string]interface{}{"exhaustive": false,
 		"exhaustive_scope": fmt.Sprintf("all histories of length 1..%d over %d ops (add/rem with duplicates, clear, set, req) x %d initial configurations, each followed by a request", maxLen, len(alphabet), len(heads)),
-		"exhaustive_cases": exhaustive, "directed_cases": directed, "error_kinds": c17ErrKinds, "status_codes": c18Statuses, "random_cases": nRandom, "random_op_mix": stats}
+		"exhaustive_cases": exhaustive, "directed_cases": directed, "caller_slice_cases": nDefaults, "multi_instance_cases": nMulti, "error_kinds": c17ErrKinds, "status_codes": c18Statuses, "random_cases": nRandom, "random_op_mix": stats}
 }
 
 func init() { register("C18", &Prop{Gen: c18Gen, Run: c18Run, CaseTimeout: 5 * time.Second}) }
